@@ -719,7 +719,9 @@ class Normalizer:
             # (x? value): (Try::branch(X) as Continue).0  ->  tryok(X);  Break -> tryerr(X)
             if b.op == "variant" and b.name in ("Continue", "Break") and b.args and b.args[0].op == "call" and \
                     re.search(r"core::ops::try_trait::Try::branch$", b.args[0].meta.get("tdef", "")):
-                return T("tryok" if b.name == "Continue" else "tryerr", None, (b.args[0].args[0],))
+                if b.name == "Continue":
+                    return mk_tryok(b.args[0].args[0])
+                return T("tryerr", None, (b.args[0].args[0],))
             # checked arithmetic: (a +/-/* b with overflow flag).0 -> plain binop
             if b.op == "binop" and b.name.endswith("WithOverflow") and t.name == "0":
                 return T("binop", b.name[:-len("WithOverflow")], b.args)
@@ -750,6 +752,8 @@ class Normalizer:
             if not rest:
                 return base
             return T("mut", None, [base] + rest, t.meta)
+        if t.op == "tryok" and args and isinstance(args[0], T):
+            return mk_tryok(args[0])
         if t.op == "call":
             if is_transparent_external(t) and args:
                 return args[0]
@@ -776,6 +780,18 @@ def drop_calls(t, pat):
     if t.op in ("tryok",) and args and isinstance(args[0], T):
         pass
     return T(t.op, t.name, args, t.meta)
+
+
+def mk_tryok(x0):
+    """value of `x0?` on the continuing path; (a.checked_sub(b).ok_or(e))? is a - b there"""
+    x = x0
+    g = 0
+    while x.op == "call" and re.search(r"core::option::Option::<T>::(ok_or|ok_or_else)$|core::result::Result::<T, E>::map_err$", x.meta.get("tdef", "")) and x.args and g < 4:
+        x = x.args[0]
+        g += 1
+    if x.op == "call" and re.search(r"^core::num::<impl usize>::checked_(add|sub)$", x.meta.get("tdef", "")) and len(x.args) == 2:
+        return T("binop", "Sub" if x.meta["tdef"].endswith("sub") else "Add", x.args)
+    return T("tryok", None, (x0,))
 
 
 def substitute(t, args):
